@@ -476,6 +476,8 @@ impl<'forest, I: Interner> Drop for SolveState<'forest, I> {
                     Some(index) => self.stack[index].active_strand.is_some(),
                     None => false,
                 };
+                #[cfg(chalk_verif)]
+                crate::verif::note_in_flight(!handed_on);
                 if !handed_on {
                     self.forest.tables[table].requeue_strand(strand);
                 }
